@@ -27,27 +27,31 @@ RULE = ("(12%: structured 'districts' inputs -- a district {a, b} with a <-> b A
         "has a counterfactual world, the graph has an edge and ID* went past line 3 (it built a counterfactual graph) "
         "and answered with an estimand, Zero from line 5, or 'unidentifiable'.")
 ASSUMPTIONS = [
-    "soundness is a THEOREM on three nested, decidable fragments (Props/C07.lean; tests inFragmentB / inFragment2B / inFragment2RB of "
-    "Y0/Model/IdStar.lean, re-implemented on the graph by fragment_flags() below and COMPARED with the model's answer on every case): "
+    "soundness is a THEOREM on four decidable fragments (Props/C07.lean; tests inFragmentB / inFragment2B / inFragment2RB / inFragment3B of "
+    "Y0/Model/IdStar.lean, re-implemented by fragment_flags() below -- the first three on the graph alone, the last on the counterfactual "
+    "graph the REAL make_counterfactual_graph builds -- and COMPARED with the model's answer on every case): "
     "fragment 1 (idstar_sound_fragment, idstar_answers_fragment, idstar_never_zero_fragment): all keys carry one subscript set, "
     "unstarred values and subscripts (the queries P(y_x), conjunctions allowed); fragment 2 (idstar_sound_fragment2): all keys carry "
     "one subscript set, values and subscripts of ANY polarity, and whenever line 6 fires no key with a starred value is a parent of "
     "a non-self-intervened node of the counterfactual graph and no node of that graph is self-intervened on a starred subscript "
     "(otherwise line 6 writes a starred symbol as an unstarred subscript: F10/M1, F10/M2); fragment 2R (idstar_sound_fragment2R): "
-    "events with any number of worlds that violate effectiveness, consist of tautologies, or are reduced to fragment 2 by line 3. "
+    "events with any number of worlds that violate effectiveness, consist of tautologies, or are reduced to fragment 2 by line 3; "
+    "fragment 3 (idstar_sound_fragment3): events that are still multi-world after line 3 whose counterfactual graph has at most one "
+    "non-self-intervened node per variable, no non-self-intervened node named like a subscript, mutually consistent subscripts, the "
+    "diagram's bidirected edges between its non-self-intervened nodes, and on which lines 6 / 9 keep the polarities (Frag3At). "
     "For every functional SCM compatible with the graph (normalised noise, mechanisms bounded by a finite domain) the returned "
     "expression, read by `cden2` (Lemmas/CfStarLit.lean: the reading of the property -- outcome variables take the event's values, "
     "an unstarred subscript is the literal x unless an enclosing Sum binds it, a starred one the literal x'), equals P(event). "
-    "The harness reports the share of generated cases per fragment (tag coverage: ~34% / ~34% / ~12% of the quick stream, ~80% "
+    "The harness reports the share of generated cases per fragment (tag coverage: ~34% / ~34% / ~12% / ~7% of the quick stream, ~86% "
     "together) and treats ANY oracle failure inside them as a violation regardless of the finding keys (key IN-FRAGMENT is never listed)",
     "single-world events (tag one_world, ~72% of the stream): ID* never refuses (idstar_answers_oneworld) and returns Zero iff "
     "line 2 fires (idstar_zero_iff_line2_oneworld, idstar_zero_sound_oneworld) -- both are checked on the real code on every "
     "single-world case (kinds 'refusal', 'zero-iff-line2', never listed); under the CONFLATING reading (an unstarred subscript -X "
     "denotes the value the event gives X) the estimand of EVERY single-world event is P(event) (idstar_sound_oneworld_conflating), "
     "i.e. on single-world events F10 is exactly the lost polarity of the subscripts line 6 writes",
-    "OUTSIDE fragment 2R (single-world events on which line 6 loses a polarity: ~4%; events that are still multi-world after line 3 "
-    "and get an estimand: ~13%) soundness of the estimand has NO theorem and is false on the current tree (F10: about half of these events "
-    "get a wrong answer): decided by correspondence + exact evaluation on 8 sampled functional SCMs per case (cardinalities 2-3); "
+    "OUTSIDE the fragments (single-world events on which line 6 loses a polarity: ~4%; events that are still multi-world after line 3, "
+    "violate Frag3At and get an estimand: ~6%) soundness of the estimand has NO theorem and is false on the current tree (F10: 86% resp. "
+    "88% of these events get a wrong answer; tools/c07_boundary.py): decided by correspondence + exact evaluation on 8 sampled functional SCMs per case (cardinalities 2-3); "
     "the known wrong answers are listed in known_findings.jsonl. Zero: for every event Zero comes from line 2, line 5 or from line 2 "
     "of a recursive call on a district event (idstar_zero_origin); the first two are sound by theorem (idstar_zero_sound_partial), "
     "the third kind is decided by the oracle (open findings of kind 'zero'). Refusals: ID* refuses iff line 8 of the top-level "
@@ -752,17 +756,19 @@ MANIFEST = {
              "(idstar_terminates / idstar_outcomes: 2|V|+3 units of fuel are never exhausted; the outcomes are an estimand, Zero or "
              "'unidentifiable', nothing else); every leaf of a returned estimand is a single-world interventional term (C06 part). "
              "SOUNDNESS (in every compatible functional SCM the returned expression, under the reading of the property, equals "
-             "P(event)) is proved on three nested decidable fragments: fragment 1 (one subscript set, unstarred values and subscripts: "
+             "P(event)) is proved on four decidable fragments: fragment 1 (one subscript set, unstarred values and subscripts: "
              "the queries P(y_x)), fragment 2 (one subscript set, ANY polarity of values and subscripts, provided line 6 -- when it "
              "fires -- finds no starred-valued key that is a parent of a non-self-intervened node of the counterfactual graph and no "
-             "node self-intervened on a starred subscript) and fragment 2R (events with any number of worlds that lines 2-3 reduce to "
-             "fragment 2): about 80% of the generated events. On EVERY single-world event the estimand is P(event) under the conflating "
+             "node self-intervened on a starred subscript), fragment 2R (events with any number of worlds that lines 2-3 reduce to "
+             "fragment 2) and fragment 3 (events still multi-world after line 3 whose counterfactual graph has one non-self-intervened "
+             "node per variable, none named like a subscript, consistent subscripts, and keeps the polarities): about 86% of the "
+             "generated events, and the measured boundary of correctness of the real code (outside them 86-88% of the estimands are wrong). On EVERY single-world event the estimand is P(event) under the conflating "
              "reading (an unstarred subscript denotes the value the event gives the variable): there F10 is exactly the lost polarity "
              "of the subscripts line 6 writes; the measured boundary (tools/c07_boundary.py) coincides with the proved one. ZERO: on "
              "single-world events Zero is returned iff line 2 fires (sound); for every event Zero comes from line 2, line 5 (both "
              "sound) or line 2 of a recursive call on a district event (open: the findings of kind 'zero'). REFUSALS: ID* refuses "
              "iff line 8 of the top-level call finds a conflict; recursive calls never refuse; single-world events are never refused. "
-             "Outside fragment 2R soundness of the estimand has NO theorem; on the current tree it is false (F10): the check decides "
+             "Outside the fragments soundness of the estimand has NO theorem; on the current tree it is false (F10): the check decides "
              "it by correspondence with the real code plus exact evaluation on sampled functional SCMs, locates every wrong answer in "
              "the recursion of the real code and lists the known defect patterns (F10/M1-M5, D1-D2) as open findings; a wrong step "
              "that shows none of them is a new violation; any failure inside a fragment is a violation whatever its key."),
@@ -771,5 +777,5 @@ MANIFEST = {
              "estimands stated in ASSUMPTIONS; sampled models (8 per case). One small defect was fixed (line 9 marginalisation, "
              "4295b26); the F10 family stays open: 10 finding keys for C07 (failure kind x step of the blamed recursive call x known "
              "defect pattern), each with a minimal example."),
-    "technique": "Lean 4 theorems (termination; soundness on single-world events of any polarity and on what lines 2-3 reduce to them, over all functional SCMs; Zero and refusal characterisations; lines 2-3-5; error taxonomy; vocabulary invariant) + differential correspondence + exact-rational functional-SCM oracle + located known findings",
+    "technique": "Lean 4 theorems (termination; soundness on single-world events of any polarity, on what lines 2-3 reduce to them and on multi-world events with a clean counterfactual graph, over all functional SCMs; Zero and refusal characterisations; lines 2-3-5; error taxonomy; vocabulary invariant) + differential correspondence + exact-rational functional-SCM oracle + located known findings",
 }
